@@ -1,13 +1,14 @@
 (* Lemmas on the reader over a stream with I/O faults (TransfacFault.v, round 3):
-   - without faults (stream = map EData chunks) the fault model with fixed = false IS the
-     reader model of TransfacReader.v / TransfacPoll.v, so every theorem about the latter
-     (totality, chunk independence, round trip) is a theorem about the model the driver runs;
+   - without faults (stream = map EData chunks) the fault model -- with EITHER value of the flag
+     [fixed], i.e. the source before and since /repo 23feb61 -- IS the reader model of
+     TransfacReader.v / TransfacPoll.v, so every theorem about the latter (totality, chunk
+     independence, round trip) is a theorem about the model the driver runs;
    - the trace the driver compares with the implementation is `map SOut l` exactly when the
      run returns `Ok l`, and contains SPanic / SHang otherwise. *)
 From Coq Require Import List Bool Arith Lia.
 From Coq Require Import Init.Byte.
 From LMBase Require Import Res.
-From LMTransfac Require Import Bytes Stream Nom TransfacParse TransfacReader Checkers TransfacPoll TransfacFault.
+From LMTransfac Require Import Bytes Stream Nom TransfacParse TransfacReader Checkers TransfacPoll TransfacFault StreamProofs ReaderProofs.
 Import ListNotations.
 
 Definition lift_res {A B} (f : A -> B) (x : res A) : res B :=
@@ -51,52 +52,161 @@ Proof.
   induction s as [|c rest IH]; intros n; [reflexivity|]. cbn [map fold_left]. apply IH.
 Qed.
 
-(* ---- the loops ---- *)
+(* ---- the loops ----
+
+   The reader model (TransfacReader.v) assigns `last := length buf'` like the source since /repo
+   23feb61; the fault model has the flag [fixed] (true = that assignment, false = `last += n`, the
+   code as it was).  Without faults BOTH fault models are the reader model: at loop entry `last`
+   is the length of the buffer (invariant ReaderProofs.inv), so `last + n` is the new length. *)
+
+Lemma read_line_shape s buf r b s' :
+  read_line s buf = (r, b, s') ->
+  match r with
+  | RlOk n => exists line, b = buf ++ line /\ n = length line /\ utf8_valid line = true
+  | RlInvalidUtf8 => b = buf
+  end.
+Proof.
+  unfold read_line. destruct (read_until_nl s []) as [line t].
+  destruct (utf8_valid line) eqn:U; intros H; inversion H; subst; [|reflexivity].
+  exists line. auto.
+Qed.
+
+Lemma advance_entry fixed s buf n b s' :
+  read_line s buf = (RlOk n, b, s') -> advance fixed b (length buf) n = length b.
+Proof.
+  intros H. destruct (read_line_shape _ _ _ _ _ H) as (line & -> & -> & _).
+  unfold advance. rewrite app_length. destruct fixed; reflexivity.
+Qed.
+
+(* partial correctness of the two loops of the reader model, without any hypothesis on the
+   parser or the fuel: what comes out satisfies the invariant *)
+Lemma new_loop_inv : forall fuel buf s b l e s',
+  new_loop fuel buf (length buf) s = Ok (b, l, e, s') -> inv b l.
+Proof.
+  induction fuel as [|f IH]; intros buf s b l e s' H; cbn [new_loop] in H; [discriminate|].
+  destruct (read_line s buf) as [[r b0] s0] eqn:RL. pose proof (read_line_shape _ _ _ _ _ RL) as Sh.
+  destruct r as [[|n]|].
+  - destruct Sh as (line & -> & Hn & _). inversion H; subst. left.
+    destruct line; [|discriminate]. rewrite app_nil_r. reflexivity.
+  - destruct Sh as (line & -> & Hn & U).
+    rewrite (str_from_app buf line (valid_line_head _ U)) in H. cbn [rbind] in H.
+    destruct (starts_with slashes line) eqn:SW.
+    + inversion H; subst. right. exists buf, line. auto.
+    + apply (IH _ _ _ _ _ _ H).
+  - subst b0. inversion H; subst. left. reflexivity.
+Qed.
+
+Lemma next_loop_last : forall fuel buf s b l io s',
+  next_loop fuel buf (length buf) s = Ok (b, l, io, s') -> l = length b.
+Proof.
+  induction fuel as [|f IH]; intros buf s b l io s' H; cbn [next_loop] in H; [discriminate|].
+  destruct (read_line s buf) as [[r b0] s0] eqn:RL. pose proof (read_line_shape _ _ _ _ _ RL) as Sh.
+  destruct r as [[|n]|].
+  - destruct Sh as (line & -> & Hn & _). inversion H; subst.
+    destruct line; [|discriminate]. rewrite app_nil_r. reflexivity.
+  - destruct Sh as (line & -> & Hn & U).
+    rewrite (str_from_app buf line (valid_line_head _ U)) in H. cbn [rbind] in H.
+    destruct (starts_with slashes line) eqn:SW.
+    + inversion H; subst. reflexivity.
+    + apply (IH _ _ _ _ _ _ H).
+  - subst b0. inversion H; subst. reflexivity.
+Qed.
+
+Lemma reader_new_inv fuel s st : reader_new fuel s = Ok st -> st_inv st.
+Proof.
+  unfold reader_new. change 0 with (length (@nil byte)).
+  destruct (new_loop fuel [] (length (@nil byte)) s) as [[[[b l] e] s']| | |] eqn:NL; cbn [rbind]; try discriminate.
+  pose proof (new_loop_inv _ _ _ _ _ _ _ NL) as I.
+  destruct (starts_with [x56; x56] b).
+  - destruct (parse_version b); cbn [error_from rbind]; intros H; inversion H; subst; unfold st_inv; cbn;
+      solve [exact I | left; reflexivity].
+  - intros H; inversion H; subst. exact I.
+Qed.
+
+(* when the loop of `next` is entered, `last` is the length of the buffer *)
+Lemma inv_loop_entry buf last tl :
+  inv buf last -> str_from buf last = Ok tl -> starts_with slashes tl = false -> last = length buf.
+Proof.
+  intros [->|(a & b & -> & <- & H)] Htl SW; [reflexivity|].
+  rewrite (str_from_app a b (starts_with_slashes_head _ H)) in Htl. inversion Htl; subst. congruence.
+Qed.
 
 Section Agree.
   Variable parse : parser record.
 
-  Lemma new_loop_e_data : forall fuel buf last s,
-    new_loop_e false fuel buf last (lift_stream s) =
-    lift_res (fun x => let '(b, l, e, s') := x in (b, l, e, lift_stream s')) (new_loop fuel buf last s).
+  Lemma reader_next_inv fuel st o st' :
+    st_inv st -> reader_next parse fuel st = Ok (o, st') -> st_inv st'.
   Proof.
-    induction fuel as [|f IH]; intros buf last s; cbn [new_loop_e new_loop]; [reflexivity|].
-    rewrite read_line_e_data. destruct (read_line s buf) as [[r b] s']. cbn [fst snd].
-    destruct r as [[|n]|]; cbn [lift_rl lift_res]; try reflexivity.
-    destruct (str_from b last); cbn [rbind lift_res]; try reflexivity.
-    destruct (starts_with slashes a); cbn [lift_res]; [reflexivity|].
-    unfold advance. apply IH.
+    unfold reader_next, st_inv. destruct st as [buf last err ver src].
+    cbn [st_err st_buf st_last st_version st_src]. intros I.
+    destruct err; [intros H; inversion H; subst; exact I|].
+    destruct (str_from buf last) as [tl| | |] eqn:Htl; cbn [rbind]; try discriminate.
+    assert (T : forall b l (io : bool) s', inv b l ->
+      (let st1 := mkSt b l None ver s' in
+       if io then Ok (OErr EIo, st1)
+       else match b with
+            | [] => Ok (OEnd, st1)
+            | _ => match parse b with
+                   | POk r _ => Ok (ORec r, mkSt [] 0 None ver s')
+                   | bad => e <- error_from bad ;; Ok (OErr e, st1)
+                   end
+            end) = Ok (o, st') -> inv (st_buf st') (st_last st')).
+    { intros b l io s' Ib. cbv zeta. destruct io; [intros H; inversion H; subst; exact Ib|].
+      destruct b as [|x b0]; [intros H; inversion H; subst; exact Ib|].
+      destruct (parse (x :: b0)); cbn [error_from rbind]; intros H; inversion H; subst; cbn;
+        solve [exact Ib | left; reflexivity]. }
+    destruct (starts_with slashes tl) eqn:SW.
+    - cbn [rbind]. apply (T buf last false src I).
+    - pose proof (inv_loop_entry _ _ _ I Htl SW) as ->.
+      destruct (next_loop fuel buf (length buf) src) as [[[[b l] io] s']| | |] eqn:NL; cbn [rbind]; try discriminate.
+      pose proof (next_loop_last _ _ _ _ _ _ _ NL) as ->.
+      apply (T b (length b) io s'). left. reflexivity.
   Qed.
 
-  Lemma next_loop_e_data : forall fuel buf last s,
-    next_loop_e false fuel buf last (lift_stream s) =
-    lift_res (fun x => let '(b, l, e, s') := x in (b, l, e, lift_stream s')) (next_loop fuel buf last s).
+  Variable fixed : bool.
+
+  Lemma new_loop_e_data : forall fuel buf s,
+    new_loop_e fixed fuel buf (length buf) (lift_stream s) =
+    lift_res (fun x => let '(b, l, e, s') := x in (b, l, e, lift_stream s')) (new_loop fuel buf (length buf) s).
   Proof.
-    induction fuel as [|f IH]; intros buf last s; cbn [next_loop_e next_loop]; [reflexivity|].
-    rewrite read_line_e_data. destruct (read_line s buf) as [[r b] s']. cbn [fst snd].
+    induction fuel as [|f IH]; intros buf s; cbn [new_loop_e new_loop]; [reflexivity|].
+    rewrite read_line_e_data. destruct (read_line s buf) as [[r b] s'] eqn:RL. cbn [fst snd].
     destruct r as [[|n]|]; cbn [lift_rl lift_res]; try reflexivity.
-    destruct (str_from b last); cbn [rbind lift_res]; try reflexivity.
+    destruct (str_from b (length buf)); cbn [rbind lift_res]; try reflexivity.
     destruct (starts_with slashes a); cbn [lift_res]; [reflexivity|].
-    unfold advance. apply IH.
+    rewrite (advance_entry fixed _ _ _ _ _ RL). apply IH.
+  Qed.
+
+  Lemma next_loop_e_data : forall fuel buf s,
+    next_loop_e fixed fuel buf (length buf) (lift_stream s) =
+    lift_res (fun x => let '(b, l, e, s') := x in (b, l, e, lift_stream s')) (next_loop fuel buf (length buf) s).
+  Proof.
+    induction fuel as [|f IH]; intros buf s; cbn [next_loop_e next_loop]; [reflexivity|].
+    rewrite read_line_e_data. destruct (read_line s buf) as [[r b] s'] eqn:RL. cbn [fst snd].
+    destruct r as [[|n]|]; cbn [lift_rl lift_res]; try reflexivity.
+    destruct (str_from b (length buf)); cbn [rbind lift_res]; try reflexivity.
+    rewrite (advance_entry fixed _ _ _ _ _ RL).
+    destruct (starts_with slashes a); cbn [lift_res]; [reflexivity|]. apply IH.
   Qed.
 
   Lemma reader_new_e_data fuel s :
-    reader_new_e false fuel (lift_stream s) = lift_res lift_st (reader_new fuel s).
+    reader_new_e fixed fuel (lift_stream s) = lift_res lift_st (reader_new fuel s).
   Proof.
-    unfold reader_new_e, reader_new. rewrite new_loop_e_data.
-    destruct (new_loop fuel [] 0 s) as [[[[b l] e] s']| | |]; cbn [lift_res rbind]; try reflexivity.
+    unfold reader_new_e, reader_new. change 0 with (length (@nil byte)). rewrite new_loop_e_data.
+    destruct (new_loop fuel [] (length (@nil byte)) s) as [[[[b l] e] s']| | |]; cbn [lift_res rbind]; try reflexivity.
     destruct (starts_with [x56; x56] b); [|reflexivity].
     destruct (parse_version b); cbn [error_from rbind lift_res]; reflexivity.
   Qed.
 
   Lemma reader_next_e_data fuel st :
-    reader_next_e parse false fuel (lift_st st) =
+    st_inv st ->
+    reader_next_e parse fixed fuel (lift_st st) =
     lift_res (fun x => (fst x, lift_st (snd x))) (reader_next parse fuel st).
   Proof.
-    unfold reader_next_e, reader_next. destruct st as [buf last err ver src].
+    unfold reader_next_e, reader_next, st_inv. destruct st as [buf last err ver src].
     cbn [lift_st es_err es_buf es_last es_version es_src st_err st_buf st_last st_version st_src].
-    destruct err; [reflexivity|].
-    destruct (str_from buf last) as [tl| | |]; cbn [rbind lift_res]; try reflexivity.
+    intros I. destruct err; [reflexivity|].
+    destruct (str_from buf last) as [tl| | |] eqn:Htl; cbn [rbind lift_res]; try reflexivity.
     assert (T : forall b l (io : bool) s',
       (let st' := mkESt b l None ver (lift_stream s') in
        if io then Ok (OErr EIo, st')
@@ -120,39 +230,46 @@ Section Agree.
     { intros b l io s'. cbv zeta. destruct io; [reflexivity|].
       destruct b as [|x b0]; [reflexivity|].
       destruct (parse (x :: b0)); cbn [error_from rbind lift_res]; reflexivity. }
-    destruct (starts_with slashes tl).
+    destruct (starts_with slashes tl) eqn:SW.
     - cbn [rbind]. apply (T buf last false src).
-    - rewrite next_loop_e_data.
-      destruct (next_loop fuel buf last src) as [[[[b l] io] s']| | |]; cbn [lift_res rbind]; try reflexivity.
+    - pose proof (inv_loop_entry _ _ _ I Htl SW) as ->. rewrite next_loop_e_data.
+      destruct (next_loop fuel buf (length buf) src) as [[[[b l] io] s']| | |]; cbn [lift_res rbind]; try reflexivity.
       apply (T b l io s').
   Qed.
 
-  Lemma poll_e_data fuel : forall k st,
-    poll_e parse false fuel k (lift_st st) = poll parse fuel k st.
+  Lemma poll_e_data fuel : forall k st, st_inv st ->
+    poll_e parse fixed fuel k (lift_st st) = poll parse fuel k st.
   Proof.
-    induction k as [|k IH]; intros st; cbn [poll_e poll]; [reflexivity|].
-    rewrite reader_next_e_data.
-    destruct (reader_next parse fuel st) as [[o st']| | |]; cbn [lift_res rbind fst snd]; try reflexivity.
-    rewrite IH. reflexivity.
+    induction k as [|k IH]; intros st I; cbn [poll_e poll]; [reflexivity|].
+    rewrite (reader_next_e_data fuel st I).
+    destruct (reader_next parse fuel st) as [[o st']| | |] eqn:RN; cbn [lift_res rbind fst snd]; try reflexivity.
+    rewrite (IH st' (reader_next_inv _ _ _ _ I RN)). reflexivity.
   Qed.
 
-  Lemma consume_post_e_data fuel post : forall cfuel st,
-    consume_post_e parse false fuel cfuel post (lift_st st) = consume_post parse fuel cfuel post st.
+  Lemma consume_post_e_data fuel post : forall cfuel st, st_inv st ->
+    consume_post_e parse fixed fuel cfuel post (lift_st st) = consume_post parse fuel cfuel post st.
   Proof.
-    induction cfuel as [|f IH]; intros st; cbn [consume_post_e consume_post]; [reflexivity|].
-    rewrite reader_next_e_data.
-    destruct (reader_next parse fuel st) as [[o st']| | |]; cbn [lift_res rbind fst snd]; try reflexivity.
-    destruct o; [rewrite IH|rewrite poll_e_data|rewrite poll_e_data]; reflexivity.
+    induction cfuel as [|f IH]; intros st I; cbn [consume_post_e consume_post]; [reflexivity|].
+    rewrite (reader_next_e_data fuel st I).
+    destruct (reader_next parse fuel st) as [[o st']| | |] eqn:RN; cbn [lift_res rbind fst snd]; try reflexivity.
+    pose proof (reader_next_inv _ _ _ _ I RN) as I'.
+    destruct o; [rewrite (IH st' I')|rewrite (poll_e_data fuel post st' I')|rewrite (poll_e_data fuel post st' I')]; reflexivity.
   Qed.
 
-  Theorem fault_free_agree_lemma post s :
-    run_reader_post_e parse false post (lift_stream s) = run_reader_post parse post s.
+  (* whatever the flag: without faults the fault model is the reader model *)
+  Theorem fault_free_agree_any post s :
+    run_reader_post_e parse fixed post (lift_stream s) = run_reader_post parse post s.
   Proof.
     unfold run_reader_post_e, run_reader_post. rewrite estream_fuel_data, reader_new_e_data.
-    destruct (reader_new (stream_fuel s) s); cbn [lift_res rbind]; try reflexivity.
-    apply consume_post_e_data.
+    destruct (reader_new (stream_fuel s) s) as [st| | |] eqn:RN; cbn [lift_res rbind]; try reflexivity.
+    apply consume_post_e_data. exact (reader_new_inv _ _ _ RN).
   Qed.
 End Agree.
+
+(* the reader as it was before /repo 23feb61 (`last += n`): name kept from round 3 *)
+Theorem fault_free_agree_lemma parse post s :
+  run_reader_post_e parse false post (lift_stream s) = run_reader_post parse post s.
+Proof. exact (fault_free_agree_any parse false post s). Qed.
 
 (* ---- the trace ---- *)
 
